@@ -544,8 +544,8 @@ def default_of(node):
         return b''
     if k == 'ref':
         pv = defaults(node['pkt'])
-        if node['how'] == 'inst':
-            pv.vals.update(node['kw'])
+        if node['how'] in ('inst', 'var'):
+            pv.vals.update(node['kw'])      # the prototype as it was when the class was declared
         return pv
     if k == 'refsel':
         return d
